@@ -141,3 +141,60 @@ class FindEdgeFromPathToSegment(Contract):
         return [Case("edges", [s, [XObj()], YObj()], post, pre=pre, zh=h0, heap={s.oid: {}}, models=models, invariants=inv,
                      options=dict(alloc_lists=True, ref_fields=("line",)), symbols=dict(n_edges_of_segment=n), minimize=[n],
                      replay=lambda w: {"target": "bounded.replay_helpers:find_edge_cases"}, confirm=battery_confirm)]
+
+
+@register
+class CheckGfa1PathSteps(Contract):
+    fn = "gfapy/line/group/ordered/to_gfa1.py::ToGFA1._check_gfa1_path_steps"
+    props = ("C06",)
+    fragment = "H"
+    doc = ("an ordered group has a GFA1 path as counterpart only if every edge of its captured path is a dovetail that leaves the previous oriented segment and "
+           "enters the next one - as written when the edge is traversed forwards, as its complement when it is traversed backwards: ValueError iff some step is "
+           "not (loop invariant over the odd positions of the captured path, every length); nothing is written. Oriented references are values: equal iff "
+           "same line and orientation")
+
+    def cases(self, ctx):
+        import builtins
+        g = ctx.gfapy
+        AII_, AIB_ = z3.ArraySort(I, I), z3.ArraySort(I, B)
+        m = z3.Int("n_steps")                        # the captured path has 2m+1 elements: segment (edge segment)*
+        el = z3.Const("element_of_captured_path", AII_)
+        line_of, inv_of = z3.Const("line_of_oriented_reference", AII_), z3.Const("inverted", AII_)
+        dov = z3.Const("edge_is_a_dovetail", AIB_)
+        orient = z3.Const("orientation", z3.ArraySort(I, Str))
+        class _Plus:
+            def __getitem__(self, x):
+                return orient[x] == z3.StringVal("+")
+        plus = _Plus()
+        ofrom, oto = z3.Const("oriented_from_of_edge", AII_), z3.Const("oriented_to_of_edge", AII_)
+        grp = Obj(g.line.group.Ordered if hasattr(g.line.group, "Ordered") else g.Line, "group")
+        cp = SList(2 * m + 1, el, lambda t: Ref(t, g.OrientedLine))
+        k = z3.Int("k")
+        def step_ok(kk):
+            prev, oe, nxt = el[2 * kk], el[2 * kk + 1], el[2 * kk + 2]
+            e = line_of[oe]
+            return z3.And(dov[e], z3.If(plus[oe], z3.And(ofrom[e] == prev, oto[e] == nxt), z3.And(ofrom[e] == inv_of[nxt], oto[e] == inv_of[prev])))
+        def m_dov(E, st, pos, kw):
+            yield ("val", dov[pos[0].t], [])
+        def m_from(E, st, pos, kw):
+            yield ("val", Ref(ofrom[pos[0].t], g.OrientedLine), [])
+        def m_to(E, st, pos, kw):
+            yield ("val", Ref(oto[pos[0].t], g.OrientedLine), [])
+        def m_inverted(E, st, pos, kw):
+            yield ("val", Ref(inv_of[pos[0].t], g.OrientedLine), [])
+        E2 = g.line.edge.GFA2
+        models = {g.OrientedLine.inverted: m_inverted, E2.is_dovetail: m_dov}
+        models[E2.oriented_from.fget] = m_from
+        models[E2.oriented_to.fget] = m_to
+        label = "ToGFA1._check_gfa1_path_steps"
+        def inv(i, st):
+            return z3.And(0 <= i, i <= m, z3.ForAll([k], z3.Implies(z3.And(0 <= k, k < i), step_ok(k))))
+        invs = {(label, 0): dict(inv=inv, mod={"i": lambda nm: fresh(nm, I), "prev": lambda nm: Ref(fresh(nm, I), g.OrientedLine), "oedge": lambda nm: Ref(fresh(nm, I), g.OrientedLine),
+                                             "nxt": lambda nm: Ref(fresh(nm, I), g.OrientedLine), "edge": lambda nm: Ref(fresh(nm, I), E2), "ok": lambda nm: fresh(nm, B)})}
+        def post(kd, v, st):
+            if kd == "raise":
+                return z3.And(z3.BoolVal(v.cls is g.ValueError), z3.Exists([k], z3.And(0 <= k, k < m, z3.Not(step_ok(k)))))
+            return z3.ForAll([k], z3.Implies(z3.And(0 <= k, k < m), step_ok(k)))
+        heap = {grp.oid: {"captured_path": cp}}
+        return [Case("steps", [grp], post, pre=[m >= 0], heap=heap, models=models, invariants=invs, zh={"line": line_of, "orient": orient}, options={"ref_fields": {"line": E2}},
+                     symbols=dict(n_steps=m), minimize=[m])]
